@@ -227,6 +227,30 @@ def check(rep, F, tier, replay=None):
             rep.sample({"rule": "HEX-sym", "datum_encode_strip_0x": sorted(e_set)})
     else:
         rep.lost("plutus encode_string")
+    # JSON-cast: numbers cross the JSON boundary without narrowing
+    import e3_arith as e3
+    rep.rule("JSON-cast", "no narrowing or sign-changing integer cast in JSON conversion code (functions with `json` / `serde_value` in their path, serde impls): an integer outside the target range would be written as a different number and come back changed")
+    n_fn = n_cast = 0
+    for fid, fn in F.fns.items():
+        if "/tests/" in fn["file"] or F.is_derived(fid):
+            continue
+        base = fid.split("::{closure")[0]
+        it = (F.fns.get(base) or {}).get("impl_trait") or ""
+        if not ("json" in base.lower() or "serde" in it or "serde_value" in base):
+            continue
+        n_fn += 1
+        for bb in fn["bbs"]:
+            if bb["c"]:
+                continue
+            for st in bb["st"]:
+                if st[1] == "=" and st[3][0] == "cast" and st[3][1] == "IntToInt":
+                    n_cast += 1
+                    k = e3.cast_lossy(st[3][3], st[3][4])
+                    if k:
+                        rep.inst("JSON-cast")
+                        rep.violation("JSON-cast", "%s|%s->%s" % (F.key(base), st[3][3], st[3][4]), "%s converts %s to %s with `as` (%s) while producing / consuming JSON: values outside the target range change silently and do not survive the JSON round trip" % (F.key(base), st[3][3], st[3][4], k), {})
+    rep.inst("JSON-cast", n_fn, nontrivial=False)
+    rep.floor("JSON conversion functions inspected for lossy casts", 150, n_fn)
     return rep.finish(
         EXPLANATION,
         ["serde derive output is a faithful field-by-field form", "the registered inverse pairs are inverse functions (their own round trips are C01/C11/C14 clauses)"],
